@@ -47,6 +47,12 @@ type ConcCase struct {
 	Sched     []SAct `json:"sched"`
 	// Free: free-running goroutines (race-detector leg) instead of an owned schedule.
 	Free bool `json:"free,omitempty"`
+	// PeerViolation: the peer's stream ends with a framing violation (RSV2)
+	// instead of a close; the reader must answer with a 1002 close.
+	PeerViolation bool `json:"peer_violation,omitempty"`
+	// ReaderLast: the reader is started only after every write-side actor has
+	// returned, so nothing competes with its replies for the connection.
+	ReaderLast bool `json:"reader_last,omitempty"`
 }
 
 func genConcCase(t *rapid.T, free bool) ConcCase {
@@ -161,7 +167,9 @@ func concInput(c ConcCase) []byte {
 	for i, n := range c.Pings {
 		in = wsref.AppendFrame(in, wsref.Frame{Fin: true, Opcode: wsref.OpPing, Masked: masked, Key: [4]byte{byte(i), 2, 3, 4}, Payload: pingPayload(i, n)})
 	}
-	if c.PeerClose != 0 {
+	if c.PeerViolation {
+		in = wsref.AppendFrame(in, wsref.Frame{Fin: true, Rsv2: true, Opcode: wsref.OpText, Masked: masked, Key: [4]byte{6, 6, 6, 6}, Payload: []byte("x")})
+	} else if c.PeerClose != 0 {
 		in = wsref.AppendFrame(in, wsref.Frame{Fin: true, Opcode: wsref.OpClose, Masked: masked, Key: [4]byte{7, 7, 7, 7}, Payload: wsref.CloseBody(c.PeerClose, "")})
 	}
 	return in
@@ -246,6 +254,9 @@ func runConcOwned(c ConcCase) (*concRun, error) {
 	for _, a := range c.Sched {
 		switch a.Kind {
 		case "start":
+			if c.ReaderLast && a.Arg%len(acts) == 1 {
+				break
+			}
 			start(a.Arg % len(acts))
 		case "grant":
 			gc.Grant()
@@ -263,6 +274,9 @@ func runConcOwned(c ConcCase) (*concRun, error) {
 		synctest.Wait()
 	}
 	for i := range acts {
+		if c.ReaderLast && i == 1 {
+			continue
+		}
 		start(i)
 	}
 	writersDone := func() bool {
@@ -292,6 +306,9 @@ func runConcOwned(c ConcCase) (*concRun, error) {
 			break
 		}
 		time.Sleep(500 * time.Millisecond)
+	}
+	if c.ReaderLast {
+		start(1)
 	}
 	// let the reader's pending replies through, then end the connection
 	for iter := 0; iter < 1000; iter++ {
@@ -540,8 +557,35 @@ func judgeConc(c ConcCase, r *concRun, o *Obs) error {
 	for i, n := range c.Pings {
 		may = append(may, want{pingPayload(i, n), wsref.OpPong})
 	}
-	if c.PeerClose != 0 {
+	if c.PeerClose != 0 && !c.PeerViolation {
 		may = append(may, want{wsref.CloseBody(c.PeerClose, ""), wsref.OpClose})
+	}
+	if c.PeerViolation {
+		// the automatic close for the violation: status 1002, any reason
+		saw1002 := false
+		for i, f := range frames {
+			if f.Opcode == wsref.OpClose && len(f.Payload) >= 2 && int(f.Payload[0])<<8|int(f.Payload[1]) == 1002 {
+				may = append(may, want{f.Payload, wsref.OpClose})
+				saw1002 = true
+				_ = i
+				break
+			}
+		}
+		appCloseSent := false
+		for _, f := range frames {
+			if f.Opcode == wsref.OpClose && !(len(f.Payload) >= 2 && int(f.Payload[0])<<8|int(f.Payload[1]) == 1002) {
+				appCloseSent = true
+			}
+		}
+		if c.ReaderLast && !saw1002 && !appCloseSent && !r.appClosed && failedAt < 0 {
+			timeouts := 0
+			for _, cr := range r.ctl {
+				if isTimeout(cr.err) {
+					timeouts++
+				}
+			}
+			return fmt.Errorf("the peer's framing violation was read after every writer had finished (%d earlier WriteControl timeouts), yet no close frame with status 1002 was sent", timeouts)
+		}
 	}
 
 	var wireCtl []wsref.WireMsg
